@@ -13,8 +13,33 @@ PathStr(w, n) == "./" \o RelPath(w, n)
 Range(s) == { s[i] : i \in 1 .. Len(s) }
 NoDup(s) == \A i, j \in 1 .. Len(s) : i # j => s[i] # s[j]
 
+(* the laws of C03 as relations between the row sets of the runs a, b, c, d of one scenario (MC_C03L) *)
+LawVerdict(r) ==
+  LET w     == r.world
+      all   == { PathStr(w, n) : n \in NodeIds(w) }
+      RowSet(t) == { r.obs[t].rows[i][1] : i \in 1 .. Len(r.obs[t].rows) }
+      tags  == DOMAIN r.obs
+      A == RowSet("a")  B == RowSet("b")
+      C == IF "c" \in tags THEN RowSet("c") ELSE {}
+      D == IF "d" \in tags THEN RowSet("d") ELSE {}
+      holds == CASE r.law \in {"complement", "complement-prefix"} -> A \cap B = {} /\ A \cup B = all
+                 [] r.law = "doubleneg" -> B = A /\ C = A
+                 [] r.law = "and" -> C = A \cap B
+                 [] r.law = "or" -> C = A \cup B
+                 [] r.law \in {"demorgan-and", "demorgan-or"} -> A = B
+                 [] r.law = "precedence" -> D = A \cup (B \cap C)
+      y == IF \E t \in tags : r.obs[t].timed_out THEN "timeout"
+           ELSE IF \E t \in tags : r.obs[t].panic THEN "crash"
+           ELSE IF \E t \in tags : r.obs[t].status = 2 THEN "rejected-as-malformed"
+           ELSE IF \E t \in tags : ~(RowSet(t) \subseteq all) THEN "unknown-row"
+           ELSE IF \E t \in tags : Cardinality(RowSet(t)) # Len(r.obs[t].rows) THEN "duplicate-row"
+           ELSE IF ~holds THEN "law-broken"
+           ELSE "ok"
+  IN [id |-> r.id, ok |-> (y = "ok"), class |-> r.class, why |-> y, key |-> r.prop \o "/" \o r.class \o "/" \o y,
+      nontrivial |-> (A # {} /\ A # all)]
+
 (* everything that is needed more than once is bound by LET so that TLC evaluates it once per record *)
-Verdict(r) ==
+Verdict(r) == IF "law" \in DOMAIN r THEN LawVerdict(r) ELSE
   LET w     == r.world
       all   == NodeIds(w)
       paths == [n \in all |-> PathStr(w, n)]
